@@ -383,7 +383,7 @@ func Ob_C06_TerminateOrder_Escrows() {
 			nodeEscrowAfter(w, snap, nT, s0.Sp, "C06.node-escrow-covers-after-terminate")
 		}
 	}
-	// (that the market hands over no more than the order's own money is the refund formula of Ob_C04_Withdraw
+	// (that the market hands over no more than the order's own money is the refund formula of Ob_C04C14_Withdraw
 	// plus arithmetic: size*remaining <= size*replica*duration)
 }
 
